@@ -424,6 +424,9 @@ def replay_path(prog: dict, basedb: str, held: list[dict], workers: list[int], u
 
 
 def _job(args):
+    import time
+
+    time.sleep = lambda _s: None      # threads run under the baton: real back-off sleeps only slow the replay
     prog, basedb, held, workers, ups, scenario, paths, tag = args[:8]
     seeds, terminal = (args[8], args[9]) if len(args) > 8 else ([], None)
     bad = []
